@@ -125,6 +125,10 @@ def run(F, res, tier):
     # the search behind the edit set covers the whole package graph (shared with C06/R5)
     from rules import c06
     c06.search_scope_rules(F, res)
+    c06.search_rejections_are_reviewed(F, res, rule="N11")
+    c06.search_scope_narrowings_are_reviewed(F, res, rule="N12")
+    from rules import c08 as _c08
+    _c08.module_locality_implies_package_locality(F, res, rule="N13")   # a local file taken for a fetched one loses its edits
     # a qualified type name is classified through its qualifier (else renaming one of two equally named types edits the other)
     from rules import c05
     c05.qualifier_first(F, res)
